@@ -405,28 +405,36 @@ async fn blackhole_open(via: &str) -> Res {
 async fn noname() -> Res {
     let w = World::start(None, None, pool_default(), true).await?;
     let mut fails = vec![];
-    let name = "no-such-host.invalid";
-    let t0 = std::time::Instant::now();
-    let (r, r2) = tokio::join!(
-        async { let r = tokio::time::timeout(Duration::from_secs(45), w.client.create_proxy_stream((name.to_string(), 80))).await; (r, t0.elapsed().as_millis()) },
-        socks_connect(w.socks.unwrap(), 3, name.as_bytes(), 80));
-    let (r, ms) = r;
-    let o1 = match r {
-        Err(_) => { fails.push(fail("open_never_completes/unresolvable_target", "no outcome within 45 s".into())); "none" }
-        Ok(Ok(_)) => { fails.push(fail("connected_reported_without_tunnel/create_proxy_stream", "an unresolvable name was reported as connected".into())); "connected" }
-        Ok(Err(e)) => {
-            // the server could not connect: the opener is owed the server's reason, not its own timeout
-            if e.to_string().contains("SYNACK timeout") { fails.push(fail("failure_reason_lost/unresolvable_target", format!("the server failed to resolve {name}; the opener waited {ms} ms and got `{e}` instead of the server's reason"))); "own-timeout" } else { "failure-reported" }
-        }
-    };
-    let o2 = match r2 {
-        Ok(_) => { fails.push(fail("connected_reported_without_tunnel/socks5", "CONNECT to an unresolvable name was answered with 'succeeded'".into())); "reply=0" }
-        Err(e) if e.starts_with("reply ") => "reply=nonzero",
-        Err(e) if e == "guard" => { fails.push(fail("open_never_completes/unresolvable_target", "socks5: no reply within 40 s".into())); "none" }
-        Err(e) => return Err(e),
-    };
+    // names that do not resolve: plain, and long ones with multi-byte characters at every alignment (a server that cuts
+    // its failure reason somewhere may cut inside a character)
+    let jp = "日本語のドメイン名.".repeat(5);
+    let names: Vec<String> = vec!["no-such-host.invalid".to_string(), format!("w.{jp}invalid"), format!("ww.{jp}invalid"), format!("www.{jp}invalid"), format!("{}.invalid", "é".repeat(100))];
+    let mut obs = vec![];
+    for name in &names {
+        let name = name.as_str();
+        let t0 = std::time::Instant::now();
+        let (r, r2) = tokio::join!(
+            async { let r = tokio::time::timeout(Duration::from_secs(45), w.client.create_proxy_stream((name.to_string(), 80))).await; (r, t0.elapsed().as_millis()) },
+            socks_connect(w.socks.unwrap(), 3, name.as_bytes(), 80));
+        let (r, ms) = r;
+        let o1 = match r {
+            Err(_) => { fails.push(fail("open_never_completes/unresolvable_target", format!("{name}: no outcome within 45 s"))); "none" }
+            Ok(Ok(_)) => { fails.push(fail("connected_reported_without_tunnel/create_proxy_stream", format!("the unresolvable name {name} was reported as connected"))); "connected" }
+            Ok(Err(e)) => {
+                // the server could not connect: the opener is owed the server's reason, not its own timeout
+                if e.to_string().contains("SYNACK timeout") { fails.push(fail("failure_reason_lost/unresolvable_target", format!("the server failed to resolve {name}; the opener waited {ms} ms and got `{e}` instead of the server's reason"))); "own-timeout" } else { "failure-reported" }
+            }
+        };
+        let o2 = match r2 {
+            Ok(_) => { fails.push(fail("connected_reported_without_tunnel/socks5", format!("CONNECT to the unresolvable name {name} was answered with 'succeeded'"))); "reply=0" }
+            Err(e) if e.starts_with("reply ") => "reply=nonzero",
+            Err(e) if e == "guard" => { fails.push(fail("open_never_completes/unresolvable_target", format!("socks5, {name}: no reply within 40 s"))); "none" }
+            Err(e) => return Err(e),
+        };
+        obs.push(format!("direct={o1} socks={o2}"));
+    }
     w.stop().await;
-    Ok((format!("direct={o1} socks={o2}"), fails))
+    Ok((obs.join(" | "), fails))
 }
 
 /// certificate hot-reload through a real listening server wired like the server binary
